@@ -93,7 +93,7 @@ def std_attrs():
 
 
 def mk_raster(kind, dtype, layout="C", backend="numpy", seed=0, nan=False, name="r", h=H, w=W, chunks=(4, 4),
-              frac=False):
+              frac=False, coordscale=1):
     """-> (DataArray, mem) where mem is the numpy array that backs it (for dask: the from_array source)."""
     np = _np()
     import xarray as xr
@@ -111,9 +111,12 @@ def mk_raster(kind, dtype, layout="C", backend="numpy", seed=0, nan=False, name=
     data = mem
     if backend == "dask":
         import dask.array as da
-        data = da.from_array(mem, chunks=chunks)
+        data = da.from_array(mem, chunks=(h, w) if chunks == "single" else chunks)
     co = std_coords(h, w)
-    coords = {"y": ("y", co["y"]), "x": ("x", co["x"]), "band": 1, "spatial_ref": 0}
+    co = {"y": co["y"] * coordscale, "x": co["x"] * coordscale}
+    # besides the index coordinates: two scalar coordinates and a 2-D auxiliary (non-index) coordinate
+    coords = {"y": ("y", co["y"]), "x": ("x", co["x"]), "band": 1, "spatial_ref": 0,
+              "lat2d": (("y", "x"), co["y"].reshape(h, 1) * 100.0 + co["x"].reshape(1, w))}
     agg = xr.DataArray(data, dims=["y", "x"], coords=coords, attrs=std_attrs(), name=name)
     return agg, mem
 
@@ -178,12 +181,12 @@ def compute(data, scheduler="synchronous"):
 
 
 def coords_pairs(obj):
-    """[[name, digest]] sorted by name; digest covers dims, dtype kind and values of the coordinate."""
+    """[[name, digest, ndim]] sorted by name; digest covers dims, dtype kind and values of the coordinate"""
     out = []
     for k in sorted(map(str, obj.coords)):
         c = obj.coords[k]
         v = c.values
-        out.append([k, _h((str(c.dims) + "|" + val_digest(v)).encode())])
+        out.append([k, _h((str(c.dims) + "|" + val_digest(v)).encode()), int(c.ndim)])
     return out
 
 
@@ -418,7 +421,7 @@ def mk_dataset(dtype, layout, backend, seed=0, h=3, w=4, frac=False):
     for i in range(3):
         a, m = mk_raster("elev" if frac else "surface", dtype, layout, backend, seed=seed + 2 * i, name="v%d" % i, h=h, w=w,
                          chunks=(2, 2) if h == 3 else (h // 3 + 1, w // 2 + 1), frac=frac)
-        a = a.drop_vars(["band", "spatial_ref"])
+        a = a.drop_vars(["band", "spatial_ref", "lat2d"])
         ds["v%d" % i] = a
         mems.append(m)
     d = xr.Dataset(ds, attrs=std_attrs())
@@ -431,7 +434,7 @@ def public(p):
     return {k: v for k, v in p.items() if not k.startswith("_")}
 
 
-def build_inputs(entry, dtype, layout, backend, seed=0, h=H, w=W, finite=False, p=None):
+def build_inputs(entry, dtype, layout, backend, seed=0, h=H, w=W, finite=False, p=None, single_chunk=False, coordscale=1):
     """-> list of (role, xarray object, [mem arrays]).  finite=True: no NaN / inf anywhere (and non-integral float values):
     in-place sorts, cumulative operations and normalisations only bite on all-finite, unsorted inputs."""
     np = _np()
@@ -451,7 +454,9 @@ def build_inputs(entry, dtype, layout, backend, seed=0, h=H, w=W, finite=False, 
         if opts.get("dtype") == "int" and np.dtype(dtype).kind == "f":
             dt = "int32"
         a, m = mk_raster(kind, dt, layout, backend, seed=seed + opts.get("seed", 0),
-                         nan=opts.get("nan", False) and not finite, frac=finite, name=role, chunks=opts.get("chunks", (4, 4) if h == H else (h // 3 + 1, w // 2 + 1)), h=h, w=w)
+                         nan=opts.get("nan", False) and not finite, frac=finite, name=role,
+                         chunks="single" if single_chunk else opts.get("chunks", (4, 4) if h == H else (h // 3 + 1, w // 2 + 1)),
+                         h=h, w=w, coordscale=coordscale)
         out.append((role, a, [m]))
     return out
 
